@@ -316,6 +316,49 @@ def judge_lock(ctx, rng, j):
         ctx.sample({'lock': lock, 'committed': S, 'allowed': allowed})
 
 
+def judge_empty_commitment(ctx, rng, j):
+    """a lock committing to the EMPTY script: the pair (b'', P) recomputes to
+    the root, but an empty script cannot be evaluated, so no witness opens the
+    script path - in particular not one that parks a script of its own under
+    the empty item"""
+    functions, parsing, tools, _, _ = env.mods()
+    seed = rbytes(rng, 32)
+    P = sigmsg.pubkey(seed)
+    fields = {'sigfield1': rbytes(rng, 8)}
+    try:
+        lock = bytes(tools.make_taproot_lock(P, tools.Script('', b'')))
+        nn = bytes(tools.make_nonnative_taproot_lock(P, tools.Script('', b'')))
+    except BaseException:
+        ctx.count('empty_commitment.builder_refuses')
+        return
+    parked = rng.choice((O('TRUE'), O('TRUE') + O('POP0') + O('TRUE'),
+                         isa.push(b'\x01\x02') + O('SHA256') + O('POP0')
+                         + O('TRUE')))
+    empty = b'\x03\x00'                    # PUSH1 size 0
+    for name, w in (
+            ('parked-script', isa.push(parked) + empty + isa.push(P)),
+            ('true-underneath', O('TRUE') + empty + isa.push(P)),
+            ('just-the-pair', empty + isa.push(P))):
+        for lk, form in ((lock, 'native'), (nn, 'non-native')):
+            ctx.evaluated()
+            got = run_auth([w, lk], fields)
+            case = dict(seed=seed, script=b'', fields=fields, allowed=0,
+                        lock=lk, kind='pair', corruption='empty:' + name,
+                        witness=w)
+            if got is not False:
+                ctx.violation('uncommitted-pair-accepted', f'(empty '
+                              f'commitment, {name}, {form} lock) verdict is '
+                              'not False', case, False, repr(got)[:80])
+            elif Tr.counts.get(parked, 0) and name == 'parked-script':
+                ctx.violation('uncommitted-script-executed', '(empty '
+                              f'commitment, {form} lock) the script parked '
+                              'under the empty item ran', case, 0,
+                              Tr.counts[parked])
+            else:
+                ctx.mark_nontrivial(dg('empty', lk, name))
+    ctx.count('empty_commitment.locks')
+
+
 def run_shard(spec, ctx):
     i, of = spec['shard'], spec['of']
     n = NLOCK[ctx.tier] // of
@@ -323,6 +366,8 @@ def run_shard(spec, ctx):
     try:
         for j in range(n):
             judge_lock(ctx, ctx.rng(j), j)
+            if j % 16 == 3:
+                judge_empty_commitment(ctx, ctx.rng(('empty', j)), j)
         ctx.count('monitor.dispatches', Tr.total)
     finally:
         remove_tracer(saved)
